@@ -132,3 +132,22 @@ Proof. exact @intermediate_curve_nonneg. Qed.
 Print Assumptions C15_intermediate_curve_formula.
 Print Assumptions C15_intermediate_curve_proportional.
 Print Assumptions C15_intermediate_curve_nonneg.
+
+(** ---- a larger penalty never yields more changepoints: over the reals, and end to end for the squared-error cost ---- *)
+From SK Require Import Model.PeltR Proofs.PeltSpec Proofs.RealLib Proofs.CostKernels Proofs.PeltReal Proofs.PeltRealMonotone.
+Open Scope R_scope.
+Theorem C15_pelt_penalty_monotone_over_reals : forall (C : nat -> nat -> R) (pen1 pen2 : R) (m delay n : nat),
+  (1 <= m)%nat -> (2 * m <= n)%nat -> 0 <= pen1 < pen2 -> (m <= delay + 1)%nat ->
+  (forall s k e, (s + m <= k)%nat -> (k + m <= e)%nat -> (e <= n)%nat -> C s k + C k e <= C s e) ->
+  (length (snd (peltR C pen2 m delay n)) <= length (snd (peltR C pen1 m delay n)))%nat.
+Proof. exact peltR_penalty_monotone. Qed.
+
+Theorem C15_pelt_l2_penalty_monotone_end_to_end : forall (xs : list R) (pen1 pen2 : R) (m : nat),
+  (1 <= m)%nat -> (2 * m <= length xs)%nat -> 0 <= pen1 < pen2 ->
+  let C := l2_cost_optim_R (prefix xs) (prefix (sq xs)) in
+  (length (snd (peltR C pen2 m (m - 1) (length xs))) <= length (snd (peltR C pen1 m (m - 1) (length xs))))%nat.
+Proof. exact pelt_l2_penalty_monotone. Qed.
+
+Print Assumptions C15_pelt_penalty_monotone_over_reals.
+Print Assumptions C15_pelt_l2_penalty_monotone_end_to_end.
+
